@@ -210,6 +210,23 @@ Theorem C02_replayed_signature_rejected : forall allowed skip steps cached n s e
 Proof. exact replayed_signature_rejected. Qed.
 Print Assumptions C02_replayed_signature_rejected.
 
+(* Multi-tenant provider (per-request issuer, Storage.KeySet depending on the issuer
+   in the context, default key set): a verification hands back claims only for a
+   token naming the issuer of ITS call and signed by a key of the storage keys of
+   THAT issuer.  The statement has no other call in it: verifications running
+   before, after or at the same time are no input (the correspondence run holds one
+   call inside Storage.KeySet while the others run). *)
+Theorem C02_tenant_own_keys : forall verify (hint : bool) allowed c c' alg,
+  outcome_claims (run_verifier verify (if hint then VIDTokenHint else VAccessToken)
+                    (tenant_verifier allowed c) (KSOpenID (tc_keys c)) (tc_tok c) (tc_mid c) (tc_now0 c))
+  = Some (c', alg) ->
+  exists bytes e key keys,
+    tc_mid c = MidOk bytes c' /\ c_iss c' = tc_issuer c
+    /\ tc_keys c = Some keys /\ In key keys
+    /\ tok_sigs (tc_tok c) = [e] /\ verify key e bytes = true.
+Proof. exact tenant_own_keys. Qed.
+Print Assumptions C02_tenant_own_keys.
+
 (* the property predicate evaluated by the correspondence run holds of the model on every input *)
 Theorem C02_spec_model : forall i, spec i (model i) = true.
 Proof. exact spec_model. Qed.
